@@ -120,6 +120,22 @@ def run(case):
             entries.append(("pivoted_cholesky", lambda o, x: (lambda L: L @ L.mT)(o.pivoted_cholesky(rank=r, error_tol=1e-14)), lambda d, x: d, None, 1e-6))
             entries.append(("sqrt_inv_matmul", lambda o, x: o.sqrt_inv_matmul(x), lambda d, x: mat_fun(d, -0.5) @ x, X, 1e-4))
     if pd:
+        # eigen / singular decompositions as differentiable functions: a generic (non-trace) function of the eigenvectors, so that the
+        # eigenvector term of the backward pass matters; only meaningful for distinct eigenvalues
+        evd = torch.linalg.eigvalsh(dense0)
+        if bool(((evd[..., 1:] - evd[..., :-1]) > 0.02 * evd[..., -1:]).all()):
+            lz = cfgs.get("max_cholesky_size") == 0
+            dtol = 1e-4 if lz else 1e-6
+
+            def _rec(e, V, p):
+                V = V if torch.is_tensor(V) else V.to_dense()
+                return (V * e.clamp_min(0).pow(p).unsqueeze(-2)) @ V.mT
+            entries.append(("diagonalization", lambda o, x: _rec(*o.diagonalization(), 0.5), lambda d, x: mat_fun(d, 0.5), None, dtol))
+            if not lz:
+                entries.append(("eigh", lambda o, x: _rec(*o.eigh(), 0.5), lambda d, x: mat_fun(d, 0.5), None, 1e-6))
+                entries.append(("eigvalsh", lambda o, x: o.eigvalsh().sort(-1).values, lambda d, x: torch.linalg.eigvalsh(d), None, 1e-6))
+                entries.append(("svd", lambda o, x: (lambda U, S, V: ((U if torch.is_tensor(U) else U.to_dense()) * S.pow(0.5).unsqueeze(-2)) @ (V if torch.is_tensor(V) else V.to_dense()).mT)(*o.svd()),
+                                lambda d, x: mat_fun(d, 0.5), None, 1e-6))
         entries.append(("solve_left", lambda o, x, l: o.solve(x, l), lambda d, x, l: l @ torch.linalg.solve(d, x), X, it, Xl))
         if cfgs.get("max_cholesky_size") != 0:
             entries.append(("sqrt_inv_matmul_left", lambda o, x, l: (lambda t: t[0].sum() + t[1].sum())(o.sqrt_inv_matmul(x, l)),
@@ -129,7 +145,7 @@ def run(case):
     # Mul goes through root decompositions of its operands, and kernel operators transpose by swapping their inputs
     # (k(x1,x2)^T = k(x2,x1)): both are functions of the symmetric part of a symmetric parameter only
     sym_all = bool({"Mul", "Kernel"} & set(heads))
-    sym_entries = {"solve", "solve_left", "inv_quad", "logdet", "inv_quad_logdet", "root_decomposition", "pivoted_cholesky", "sqrt_inv_matmul", "sqrt_inv_matmul_left"}
+    sym_entries = {"diagonalization", "eigh", "eigvalsh", "svd", "solve", "solve_left", "inv_quad", "logdet", "inv_quad_logdet", "root_decomposition", "pivoted_cholesky", "sqrt_inv_matmul", "sqrt_inv_matmul_left"}
 
     def grads(which, fn_impl, fn_dense, xin, subset, settings_cfg, lin=None, argpat=(True, True)):
         env.settings_restore()
